@@ -190,6 +190,9 @@ class Host:
     def sig(self, name="USR1", count=1):
         return self.cmd("SIG %-4s%d" % (name, count))
 
+    def raise_only(self, name="USR1"):
+        return self.cmd("RAISE %s" % name)
+
     def rdfault(self, kind="EAGAIN", count=1):
         return self.cmd("RDFAULT %-5s %d" % (kind, count))
 
